@@ -34,7 +34,7 @@ def presence_tested_on_raw_meta(ck: Checker, rule: str) -> None:
         if t.kind == "test" and isinstance(e, ast.Compare) and len(e.ops) == 1 and isinstance(e.ops[0], (ast.Is, ast.IsNot)) and isinstance(e.comparators[0], ast.Constant) and e.comparators[0].value is None:
             if isinstance(e.left, ast.Name) and e.left.id in params:
                 n_tests += 1
-    ck.require(not bad and n_tests >= 1, rule, fn, bad[0] if bad else fn.node, "presence of a side is tested on the metadata itself, before any comparison key is applied",
+    ck.require(not bad, rule, fn, bad[0] if bad else fn.node, "presence of a side is tested on the metadata itself, before any comparison key is applied",
                f"`{norm(bad[0])[:70] if bad else '_diff_meta'}` replaces a side by its comparison key before the presence test: a key that is None for an existing Meta makes a key present on both sides look added / deleted instead of modified",
                construct="_diff_meta / presence before cmp_key")
 
